@@ -173,9 +173,9 @@ OGetUndo ==
 (* C07 *)
 OUndo ==
   /\ IsEvent("Undo") /\ JOpsOK(E.undo) /\ ~Running(E.r)
-  /\ IF E.res = "injected" THEN Same(E.r) /\ UNCHANGED db
-     ELSE /\ Observed(E.r)
-          /\ UndoClauses(db[E.r], db'[E.r], JOps(E.undo), E.res)
+  /\ IF E.res = "injected" /\ JDb(E.post) = db[E.r] THEN Same(E.r) /\ UNCHANGED db
+     ELSE /\ Observed(E.r)     \* (an injected failure of the rebuild that follows a committed undo)
+          /\ UndoClauses(db[E.r], db'[E.r], JOps(E.undo), IF E.res = "injected" THEN "true" ELSE E.res)
           /\ db'[E.r].base = db[E.r].base /\ db'[E.r].ws = db[E.r].ws
   /\ UNCHANGED <<chain, snap, sy, err>> /\ Keep
 
